@@ -52,6 +52,9 @@ const (
 	// in this time period, the client will terminate the connection with the remote
 	// peer and collect a new snowflake.
 	SnowflakeTimeout = 20 * time.Second
+	// streamCloseTimeout is how long SnowflakeConn.Close waits for the orderly
+	// end of its stream to be written before it tears the session down anyway.
+	streamCloseTimeout = 5 * time.Second
 	// DataChannelTimeout is how long the client will wait for the OnOpen callback
 	// on a newly created DataChannel.
 	DataChannelTimeout = 10 * time.Second
@@ -227,7 +230,21 @@ type SnowflakeConn struct {
 // The collection of snowflake proxies for this connection is stopped.
 func (conn *SnowflakeConn) Close() error {
 	log.Printf("---- SnowflakeConn: closed stream %v ---", conn.ID())
-	conn.Stream.Close()
+	// Stream.Close waits until its FIN frame has been handed to the KCP
+	// session, which blocks for as long as nothing can be sent (no working
+	// proxy and the send window full) -- up to the session's ten-minute
+	// keepalive timeout. Do not let that keep the collection of snowflakes
+	// and the rendezvous attempts going: closing the session below makes a
+	// Stream.Close that is still waiting return.
+	streamClosed := make(chan struct{})
+	go func() {
+		conn.Stream.Close()
+		close(streamClosed)
+	}()
+	select {
+	case <-streamClosed:
+	case <-time.After(streamCloseTimeout):
+	}
 	log.Printf("---- SnowflakeConn: end collecting snowflakes ---")
 	conn.snowflakes.End()
 	conn.pconn.Close()
